@@ -387,8 +387,13 @@ def case_numbering(kind):
         rng = rng_for(run.seed, "C08", "numbering", kind)
         field, mesh = make_container(rng, kind)
         M = Model(field)
-        for f in field.fields:
+        for k_, f in enumerate(field.fields):
             f.values[:] = rng.standard_normal(f.values.shape)
+            if k_ % 2 == 0 and f.values.ndim == 2 and f.values.shape[1] > 1:
+                # a value array stored column-wise (as produced by (R @ X.T).T or np.array([ux, uy]).T): the numbering is defined by
+                # the (point, component) indices, not by the memory layout
+                f.values = np.asfortranarray(f.values)
+                run.units["values:column-major-storage"] += 1
         mon = "numbering"
         # values(field)
         x = fem.math.values(field)
@@ -696,7 +701,7 @@ def cases(tier, seed):
 
 
 SPEC = {
-    "required_units": ["partition:disjoint", "partition:cover", "partition:dof0", "boundary:selection", "apply:alignment", "values", "container+",
+    "required_units": ["partition:disjoint", "partition:cover", "partition:dof0", "boundary:selection", "apply:alignment", "values", "values:column-major-storage", "container+",
                        "container-", "container+=", "container-=", "container+list", "getitem", "single-entry-assembly",
                        "solve.partition", "points-without-cells", "fields:2", "fields:3", "loadcase:symmetry",
                        "loadcase:uniaxial", "loadcase:biaxial", "loadcase:shear", "loadcase:uniaxial:values", "loadcase:mixed-container", "loadcase:offset-body"]
